@@ -109,8 +109,8 @@ pub fn is_parked(tid: usize) -> bool {
 }
 pub fn take_log() -> Vec<Access> { std::mem::take(&mut lock_state().log) }
 /// appends a driver/worker-made entry to the log (operation results and the like)
-pub fn note(tid: usize, kind: &'static str, a: u64, b: Option<u64>, ok: bool) {
-    lock_state().log.push(Access { tid, addr: 0, kind, seen: a, wrote: b, ok });
+pub fn note(tid: usize, kind: &'static str, code: usize, a: u64, b: Option<u64>, ok: bool) {
+    lock_state().log.push(Access { tid, addr: code, kind, seen: a, wrote: b, ok });
 }
 
 // thread side -----------------------------------------------------------------------------------------
@@ -175,6 +175,8 @@ macro_rules! shim {
             pub fn compare_exchange_weak(&self, c: $prim, n: $prim, s: Ordering, f: Ordering) -> Result<$prim, $prim> {
                 self.compare_exchange(c, n, s, f)
             }
+            /// reads the current value without a scheduling point and without logging (for the driver's state snapshots)
+            pub fn raw(&self) -> $prim { self.0.load(Ordering::SeqCst) }
             pub fn get_mut(&mut self) -> &mut $prim { self.0.get_mut() }
             pub fn into_inner(self) -> $prim { self.0.into_inner() }
         }
